@@ -7,6 +7,7 @@
 (*   D(f)    client datagram on flow f        B(f,g)  two datagrams in one poll *)
 (*   R(f)    the peer of flow f replies       Tick    time advances to the next tick *)
 (*   Down(a) / Up(a)  the server at a closes / reopens its port              *)
+(*   Stall / Resume   the client stops / resumes taking datagrams             *)
 (* An idle spell (`nap`) makes the simulation stay silent for several ticks, *)
 (* long enough for flows to expire.                                          *)
 EXTENDS MCUdpMux, Json
@@ -26,16 +27,18 @@ GenNext ==
     \/ Impl /\ UNCHANGED << sched, nap >>
     \/ EnvIcmp /\ UNCHANGED << sched, nap >>
     \/ /\ nap = 0 /\ EnvQuiet
-       /\ \E f \in Flows : ClientDgram(f, nextId)
+       /\ \E f \in Flows : ClientDgram(f, nextId, f)
                            /\ sched' = IF inq # << >> /\ Len(sched) > 0 /\ Last.e = "D"
                                        THEN [sched EXCEPT ![Len(sched)] = O("B", Last.f, f, "-")]
                                        ELSE Append(sched, O("D", f, 0, "-"))
        /\ (inq # << >> => Len(sched) > 0 /\ Last.e = "D")
        /\ UNCHANGED nap
     \/ /\ nap = 0 /\ EnvQuiet /\ inq = << >>
-       /\ \/ \E f \in Flows : PeerReplies(f, nextId) /\ sched' = Append(sched, O("R", f, 0, "-"))
+       /\ \/ \E f \in Flows : PeerReplies(f, nextId, f) /\ sched' = Append(sched, O("R", f, 0, "-"))
           \/ \E a \in Addr : ServerDown(a) /\ sched' = Append(sched, O("Down", 0, 0, a))
           \/ \E a \in Addr : ServerUp(a) /\ sched' = Append(sched, O("Up", 0, 0, a))
+          \/ ClientStalls /\ sched' = Append(sched, O("Stall", 0, 0, "-"))
+          \/ ClientResumes /\ sched' = Append(sched, O("Resume", 0, 0, "-"))
        /\ UNCHANGED nap
     \/ /\ nap = 0 /\ EnvQuiet /\ inq = << >> /\ ops < MaxOps
        /\ \E n \in {1, 2, 5, 6} : nap' = n
